@@ -39,12 +39,18 @@ var tenantPairs = [][2]string{
 	{"a", "ab"}, {"alice", "alicecol1"}, {"alice", "alice x"}, {"bob", "bob."}, {"user", "User"}, {"ünï", "ünïcode"},
 	{".", "col1"}, {"..", "userCollections"}, {"x", strings.Repeat("x", 200)}, {"col1", "col2"}, {"a.b", "a"}, {"t1", "t2"},
 	{"..", "node0"}, {".", "." + "x"},
+	// ids that differ only in characters a "sanitising" layer might fold together (file-system unsafe
+	// punctuation, case, blanks, escapes, trailing dots, unicode composition): distinct opaque ids
+	// must stay distinct tenants in every namespace (database keys AND directories)
+	{"idp|1001", "idp_1001"}, {"idp:1001", "idp|1001"}, {"a*b", "a?b"}, {"a<b", "a>b"}, {"a\"b", "a'b"},
+	{"a b", "a_b"}, {"a+b", "a b"}, {"a%20b", "a b"}, {"a%2Fb", "a_b"}, {"user@x", "user_x"},
+	{"a~1", "a"}, {"a#b", "a"}, {"e\u0301", "\u00e9"}, {"Bob.", "bob"}, {"a=b", "a-b"}, {"a,b", "a;b"},
 }
 
 func (c16) Cases(tier string, seed uint64) []fw.Case {
-	n := 42
+	n := 2 * len(tenantPairs)
 	if tier == "thorough" {
-		n = 420
+		n = 14 * len(tenantPairs)
 	}
 	cs := make([]fw.Case, n)
 	for i := range cs {
